@@ -11,5 +11,6 @@ INVARIANT Conservation
 INVARIANT ImputeComplete
 INVARIANT LongWindow
 INVARIANT ScalePost
+INVARIANT GivenNumbers
 INVARIANT Emit
 CHECK_DEADLOCK FALSE
